@@ -38,7 +38,7 @@ SCEN = {
     "views": (["FetchOne", "All", "Unique", "Scalars", "Mappings"],
               ["FetchOne", "Next", "IterStep", "FetchMany", "All", "First", "One", "Unique", "Close"], {0, 2, 99}, {2}),
     "shape": (["FetchOne", "FetchMany", "Partitions", "All", "Unique", "Columns", "Tuples", "YieldPer", "Scalar"], [], ALLSZ, {0, 2, 99}),
-    "shapev": (["FetchOne", "YieldPer", "Scalars", "Unique"], ["FetchMany", "Partitions", "All", "YieldPer", "Next"], {1, 99}, {2, 99}),
+    "shapev": (["FetchOne", "YieldPer", "Scalars", "Unique"], ["FetchMany", "Partitions", "All", "YieldPer", "Next"], {0, 1, 99}, {2, 99}),
     "compose": (["FetchOne", "FetchMany", "All", "Unique", "Freeze", "Merge", "One", "Columns"], [], {1, 99}, {2}),
     "unhash": (["FetchOne", "FetchMany", "All", "Unique", "One", "Scalars", "Columns"], ["FetchMany", "All", "Next", "Unique"], {2, 99}, {2}),
 }
@@ -54,7 +54,7 @@ def tier_plan(quick):
             ("fetch", 3, 4, 3, ["iter", "chunk", "frozen", "merged", "cursor", "cursor_json", "cursor_merged", "stream1", "stream2", "streamg",
                                 "full"], False),
             ("views", 2, 4, 2, ["iter", "merged", "cursor", "full"], False),
-            ("shape", 2, 4, 2, ["chunk", "cursor", "cursor_json", "streamg", "full"], False),
+            ("shape", 2, 4, 2, ["chunk", "iter@chunk", "merged@chunk", "cursor", "cursor_json", "streamg", "full"], False),
             ("shapev", 2, 4, 2, ["iter", "cursor", "stream1"], False),
             ("compose", 2, 4, 2, ["iter", "chunk", "cursor", "full"], False),
             ("unhash", 2, 3, 2, ["iter", "cursor_json"], True),
@@ -89,7 +89,12 @@ def build_graphs(chk, plan):
     need = {}
     for scen, maxrows, depth, ndom, impls, unhash in plan:
         for impl in impls:
+            # "impl@fam": replay impl on the graph of another family whose behaviours are a subset of its own (the chunk graph is the
+            # iter graph minus yield_per() after the first fetch)
+            impl, _, over = impl.partition("@")
             fam, bm, gr = rd.fam_key(impl)
+            if over:
+                fam = over
             if fam == "chunk" and "YieldPer" not in SCEN[scen][0] + SCEN[scen][1]:
                 fam = "iter"        # ChunkedIteratorResult differs from IteratorResult only in yield_per()
             gid = "%s-%s%s" % (scen, fam, ("%d_%d" % (bm, gr)) if fam == "buffered" else "")
@@ -173,7 +178,10 @@ def main(chk):
         g = graphs[gid]
         depth, unhash = need[gid][2], need[gid][3]
         walks, st = graph.plan_tours(g, depth, rng)
-        walks += graph.random_walks(g, max(50, len(walks) // 3), depth, rng)
+        ntour = len(walks)
+        walks += rd.memo_walks(g, depth, rng)
+        st["memo_walks"] = len(walks) - ntour
+        walks += graph.random_walks(g, max(50, ntour // 4), depth, rng)
         plans[gid] = st
         nedges += st["edges"]
         if st["edges_covered"] + st["edges_beyond_depth"] != st["edges"]:
